@@ -89,6 +89,47 @@ class FakeCircuit(Host):
         self.log.append(('_emplace', label))
         return self
 
+    # interface operations, modelled after their documented behaviour (their own shape is C02's business)
+    def _need(self, labels):
+        for l in labels:
+            if l not in self._gates:
+                raise InterpRaise('CircuitValidationError')
+
+    def mark_as_output(self, label):
+        self._need([label])
+        self._outputs.append(label)
+
+    def set_outputs(self, outputs):
+        self._need(outputs)
+        self._outputs = list(outputs)
+
+    def set_inputs(self, inputs):
+        self._need(inputs)
+        if sorted(inputs) != sorted(self._inputs):
+            raise InterpRaise('CircuitValidationError')
+        self._inputs = list(inputs)
+
+    def add_inputs(self, inputs):
+        for l in inputs:
+            self.emplace_gate(l, self._input_type)
+
+    @staticmethod
+    def _order(new, old):
+        rest = list(old)
+        for x in new:
+            if x not in rest:
+                raise InterpRaise('CircuitGateIsAbsentError')
+            rest.remove(x)
+        return list(new) + rest
+
+    def order_outputs(self, outputs):
+        self._outputs = self._order(outputs, self._outputs)
+        return self
+
+    def order_inputs(self, inputs):
+        self._inputs = self._order(inputs, self._inputs)
+        return self
+
     def input_at_index(self, i):
         if i >= len(self._inputs):
             raise InterpRaise('GateDoesntExistError')
